@@ -247,7 +247,10 @@ def finite(x):
 
 def compare_values(ty, impl_vals, model_vals, tol=None, scale=1):
     """None if they agree, else a description"""
-    tol = (TOL[ty] if tol is None else tol) * scale
+    base = TOL[ty] if tol is None else tol
+    # conditioning: a quotient by a quantity of size 1/scale carries an absolute error of a few
+    # eps * scale; that, not the generous base tolerance times scale, is what is granted
+    tol = base if scale <= 1 else base + 256 * num.EPS.get(ty, Fraction(0)) * scale
     if len(impl_vals) != len(model_vals):
         return "length %d vs model %d" % (len(impl_vals), len(model_vals))
     worst = None
